@@ -11,13 +11,17 @@ LEVEL = 'proof'
 RULE = ('corpus; exhaustive boolean scope (all 3x4 images x 3x3 elements, also 1xn/nx1/2x2; quick = seeded slice); '
         'get_structuring_elem on rank 1-4 arrays: None, a grid of ints (negative, zero, translate_sizes keys, huge), arrays of '
         'equal/other rank, zero-length axes, other dtypes/layouts; erode/dilate called with None/int arguments; '
-        'random 1-3 D x 9 integer dtypes x 7 layouts x elements (odd/even, empty, larger than the image, non-flat, '
-        'dtype-minimum entries) with values dense at the dtype limits. Non-trivial = result differs from the input '
+        'random 1-3 D x 9 integer dtypes x 7 layouts x elements (odd/even, empty, larger than the image, non-flat, pyramids = '
+        'height-monotone towards the centre, dtype-minimum entries) with values dense at the dtype limits; a size-threshold '
+        'stream (1x65537, 257x256, 65537x1, 32769: element count / row length across 2^8, 2^15, 2^16; bool fast path and generic '
+        'path; cross and 3x3 box) judged by the same Lean driver. Non-trivial = result differs from the input '
         'or element is irregular; distinct = distinct (op,dtype,shape,data,element,layout).')
 ASSUMPTIONS = ['heights of the structuring element are non-negative (or the dtype minimum = absent)',
                'an image value equal to the dtype minimum is absorbing (-inf) under dilation, as an element entry is',
-               'dilation with an irregular element is compared with the gather definition only at pixels whose element '
-               'box and reflected box lie inside the image; elsewhere only path independence and the scatter model apply',
+               'dilation is compared with the gather definition at EVERY pixel when the members are star-shaped and flat '
+               '(C01_dilate_regular_everywhere) or star-shaped and height-monotone towards the centre (C01_dilate_height_monotone_everywhere: '
+               'pyramids, and cross/box/disk on signed dtypes where 0 entries are members of height 0); with any other element only at '
+               'pixels whose element box and reflected box lie inside the image; elsewhere only path independence and the scatter model apply',
                'array sizes < 2^31']
 EXHAUSTIVE = {'thorough': True}
 TRUSTED = ['numpy (array construction, layout views)']
@@ -147,13 +151,30 @@ def _eval_single(cases):
             if _path(Ao) != path:
                 other = _call(case['kind'], Ao, Bc)
         f = _judge(case, got, drv, path, other)
+        if case.get('outalias'):
+            # erode(A, Bc, out=A): the statement quantifies over every call; _get_output accepts a C-contiguous array of the dtype and
+            # shape of A, so the image itself qualifies. Same specification as the out-less call (compared with it, which is judged above).
+            Ac = np.ascontiguousarray(Al).copy()
+            import mahotas as mh
+            r2 = (mh.erode if case['kind'] == 'erode' else mh.dilate)(Ac, Bc, out=Ac)
+            if not np.array_equal(np.asarray(r2), got):
+                f.append(dict(kind='property', key=f"{case['kind']}:out=alias-a",
+                              detail=dict(got=[int(x) for x in np.asarray(r2).ravel().tolist()], without_out=[int(x) for x in got.ravel().tolist()])))
+            if r2 is not Ac:
+                f.append(dict(kind='model', key=f"{case['kind']}:out-not-returned", detail={}))
         if not np.array_equal(before, Al):
             f.append(dict(kind='property', key='input-modified', detail={}))
         irregular = ('obs' in drv and '0' in drv['obs'])
+        # which theorem licenses the dilation comparison: every pixel (flat star-shaped: C01_dilate_regular_everywhere; non-flat
+        # height-monotone, e.g. the cross on a signed dtype: C01_dilate_height_monotone_everywhere) or box-interior pixels only
+        judged = ('n/a' if case['kind'] != 'dilate' else {'flat': 'all-pixels:flat-star', 'monotone': 'all-pixels:height-monotone'}.get(
+            drv.get('cls', ''), 'box-interior-only'))
         res.append(dict(findings=f, nontrivial=bool(irregular or not np.array_equal(got, A)),
                         sig=lines[len(res)] + case.get('layout', 'C'),
                         tags=dict(kind=case['kind'], dtype=case['dtype'], ndim=len(case['shape']),
-                                  layout=case.get('layout', 'C'), path=path,
+                                  layout=case.get('layout', 'C'), path=path, dilate_judged=judged, size=case.get('size', 'small'),
+                                  out=('alias-a' if case.get('outalias') else 'none'),
+                                  signed=('signed' if case['dtype'].startswith('int') else 'unsigned-or-bool'),
                                   elem=('pyarg' if 'pyarg' in case else 'empty' if not any(case['bc']) else 'larger' if any(
                                       b > s for b, s in zip(case['bshape'], case['shape'])) else 'even' if any(
                                       b % 2 == 0 for b in case['bshape']) else 'odd'))))
@@ -323,6 +344,21 @@ def _rand_elem(rng, dtype, ndim, shape):
         bshape = [rng.choice([1, 2, 3]) for _ in range(ndim)]
     n = int(np.prod(bshape))
     style = rng.random()
+    if dtype != 'bool' and rng.random() < 0.2:
+        # "pyramid": heights fall off with the distance from the centre (l1 or linf), cells beyond the reach are absent or
+        # (signed) of height 0 -- coordinate-wise star-shaped and height-monotone towards the centre, not flat: the
+        # dilation is judged at EVERY pixel (C01_dilate_height_monotone_everywhere), also for even sides
+        top = rng.choice([1, 2, 3, 5, min(hi, 40)])
+        step = rng.choice([1, 1, 2])
+        norm = rng.choice(['l1', 'linf'])
+        floor = rng.choice([lo, lo, 0]) if lo < 0 else lo
+        bc = []
+        for idx in np.ndindex(*bshape):
+            ds = [abs(i - b // 2) for i, b in zip(idx, bshape)]
+            dist = sum(ds) if norm == 'l1' else max(ds)
+            h = top - step * dist
+            bc.append(h if h >= (0 if lo < 0 else 1) else floor)
+        return bshape, bc
     if dtype == 'bool':
         p = 0.0 if style < 0.05 else rng.choice([0.3, 0.6, 1.0])
         bc = [1 if rng.random() < p else 0 for _ in range(n)]
@@ -362,6 +398,40 @@ def _regular_elem(rng, dtype, ndim):
     return list(Bc.shape), [int(x) for x in Bc.ravel().tolist()], pyarg
 
 
+def _threshold_cases(rng, tier):
+    """SIZE-THRESHOLD stream: a handful of images whose element count / row length crosses 2^8, 2^15, 2^16 (+-1), so that a
+    counter, index or accumulator narrowed to 8/16 bits cannot pass: 1 x 65537 and 257 x 256 (bool C-contiguous = fast path;
+    strided / uint8 / int16 = generic path), 1-D 65537 and 32769, cross (Python-level argument) and 3x3 box. Judged by the Lean
+    driver like every other case (the native driver handles 65k pixels in well under a second)."""
+    plans = [('bool', [1, 65537], 'C', 'none'), ('uint8', [1, 65537], 'strided', 'box'), ('bool', [257, 256], 'C', 'box'),
+             ('int16', [65537], 'C', 'none'), ('uint8', [257, 256], 'C', 'none'), ('int8', [32769], 'negstride', 'box'),
+             ('uint16', [256, 257], 'F', 'none'), ('bool', [65537, 1], 'C', 'box')]
+    if tier == 'quick':
+        plans = rng.sample(plans[:3], 2) + rng.sample(plans[3:], 2)
+    out = []
+    for dtype, shape, layout, el in plans:
+        lo, hi = gen.dt_range(dtype)
+        n = int(np.prod(shape))
+        if dtype == 'bool':
+            pbit = rng.choice([0.5, 0.9])
+            data = [1 if rng.random() < pbit else 0 for _ in range(n)]
+        else:
+            band = rng.choice([3, 40, hi - lo])
+            base = rng.randint(lo, hi - band)
+            data = [base + rng.randint(0, band) for _ in range(n)]
+        nd = len(shape)
+        for kind in ('erode', 'dilate'):
+            c = dict(kind=kind, dtype=dtype, shape=shape, data=data, layout=layout, size='threshold')
+            if el == 'none':
+                import mahotas as mh
+                Bc = mh.get_structuring_elem(np.zeros((3,) * nd, dtype), None)
+                c.update(bshape=list(Bc.shape), bc=[int(x) for x in Bc.ravel().tolist()], pyarg='none')
+            else:
+                c.update(bshape=[3] * nd, bc=[1] * 3 ** nd)
+            out.append(c)
+    return out
+
+
 def cases(rng, tier):
     out = list(_corpus()) if tier != 'search' else []
     nrand = dict(quick=2500, thorough=30000, search=12000)[tier]
@@ -396,6 +466,8 @@ def cases(rng, tier):
         c = dict(kind=rng.choice(['erode', 'dilate']), dtype=dtype, shape=shape,
                  data=[int(x) for x in A.ravel().tolist()], bshape=bshape, bc=bc,
                  layout=rng.choice(gen.LAYOUTS))
+        if rng.random() < 0.25:
+            c['outalias'] = True       # also called in place (out = the image itself)
         if pyarg is not None:
             c['pyarg'] = pyarg
         else:
@@ -404,6 +476,7 @@ def cases(rng, tier):
             if rng.random() < 0.25:
                 c['bc_layout'] = rng.choice(['F', 'strided', 'negstride', 'transposed', 'readonly'])
         out.append(c)
+    out.extend(_threshold_cases(rng, tier))
     out.extend(_getse_cases(rng, tier))
     return out
 
@@ -424,10 +497,28 @@ def shrink(case):
                     b = list(case['bc']); b[i] = 0
                     yield dict(case, bc=b)
         return
+    if case.get('outalias'):
+        yield {k: v for k, v in case.items() if k != 'outalias'}
     if 'pyarg' in case:
         # the same element passed as an explicit array (bshape/bc hold what get_structuring_elem returned)
         yield {k: v for k, v in case.items() if k != 'pyarg'}
         case = dict(case)
+    if case.get('size') == 'threshold':
+        # no one-slice-at-a-time deletion on a 65k-pixel case: cut the longest axis to the powers of two the stream is about, then halve
+        shape = list(case['shape'])
+        ax = max(range(len(shape)), key=lambda i: shape[i])
+        rest = int(np.prod(shape)) // shape[ax]
+        A = np.array(case['data'], dtype=object).reshape(shape)
+        for m in (65536 // rest, 32768 // rest, 256, shape[ax] // 2):
+            if 1 <= m < shape[ax]:
+                B = np.take(A, range(m), axis=ax)
+                c = dict(case, shape=list(B.shape), data=[int(x) for x in B.ravel().tolist()])
+                if B.size < 4096:
+                    c.pop('size', None)
+                yield c
+        if case.get('layout', 'C') != 'C':
+            yield dict(case, layout='C')
+        return
     shape, data = case['shape'], case['data']
     A = np.array(data, dtype=object).reshape(shape)
     # drop a slice along an axis
